@@ -166,6 +166,14 @@ def assignment_is_permutation(score, algorithm):
         return Fail('not-a-permutation', f'_mapping_from_score_matrix({algorithm}) returned {np.asarray(m).tolist()}')
 
 
+@oracle
+def int_matrix_containing_sentinel(score, algorithm):
+    """integer score matrices whose entries may equal iinfo.min, the value the code itself writes as -inf"""
+    m = pa._mapping_from_score_matrix(score, algorithm)
+    if not pyref.is_perm_columns(m, np.asarray(score).shape[-1]):
+        return Fail('int-min-sentinel', f'int matrix with iinfo.min entries -> {np.asarray(m).tolist()}')
+
+
 def _aligner(kind, metric, algorithm, cfg):
     if kind == 'greedy':
         return pa.GreedyPermutationAlignment(metric, algorithm)
@@ -286,6 +294,15 @@ def search(ctx):
         if rng.random() < 0.3:
             s = np.round(s)
         ctx.run(assignment_is_permutation, score=s, algorithm=algo if K <= 5 else 'greedy')
+    # integer dtype path: ordinary integer matrices must behave like floats; entries equal to iinfo.min collide with
+    # the code's own "-inf" stand-in (DESIGN.md section 5, candidate 11)
+    for _ in range(ctx.n(60, 600)):
+        K = int(rng.integers(1, 5))
+        si = rng.integers(-5, 6, size=(K, K)).astype(np.int64)
+        ctx.run(assignment_is_permutation, score=si, algorithm='greedy')
+    lo = np.iinfo(np.int64).min
+    for K in (2, 3):
+        ctx.run(int_matrix_containing_sentinel, score=np.full((K, K), lo, dtype=np.int64), algorithm='greedy')
     for i in range(ctx.n(40, 600)):
         if ctx.out_of_time():
             break
